@@ -56,6 +56,9 @@ type arr5 = [5]int32
 func mkarr() *arr5 { return &arr5{20, 21, 22, 23, 24} }
 
 //go:noinline
+func nilarr() *arr5 { return nil }
+
+//go:noinline
 func nilptr() *int { return nil }
 
 type pt struct{ a, b int }
@@ -269,6 +272,12 @@ def cases(rng, n_extra):
     add("make-ok", "n := oi(4); s := make([]int64, n, n+1); println(len(s), cap(s))")
     add("make-neg8", "n := oi8(-3); s := make([]byte, n); println(len(s))")
     add("make-chan-neg", "n := oi(-1); c := make(chan int, n); println(cap(c))")
+    # a channel buffer whose byte size wraps / exceeds the allocation limit; slicing through a nil array pointer
+    add("make-chan-oversize", "n := oi(1 << 62); c := make(chan int64, n); println(cap(c))")
+    add("make-chan-oversize", "n := oi(1<<46 + 1); c := make(chan int32, n); println(cap(c))")
+    add("nil-aptr-slice", "a := nilarr(); s := a[:]; println(len(s))")
+    add("nil-aptr-slice", "a := nilarr(); s := a[oi(1):oi(2)]; println(len(s))")
+    add("nil-aptr-slice", "a := nilarr(); s := a[oi(0):oi(0)]; println(len(s))")
     for (t, f) in (("int8", "oi8"), ("int16", "oi16"), ("int32", "oi32"), ("int64", "oi64")):
         add("make-chan-neg-narrow", "n := %s(-1); c := make(chan int, n); println(cap(c))" % f)
         add("make-chan-ok-narrow", "n := %s(3); c := make(chan int, n); println(cap(c))" % f)
